@@ -3,7 +3,8 @@
 //! the reference router (reference glob matcher + the stated rule) predicts who must answer.
 
 use crate::common::glob::glob_match;
-use crate::common::net::{exchange, start_app};
+use crate::common::net::exchange;
+use crate::common::net_app::start_app;
 use crate::engine::{hash_of, pt, Ctx, Fail};
 use humphrey::http::{Response, StatusCode};
 use humphrey::stream::Stream;
